@@ -299,6 +299,7 @@ type printer struct {
 	prevOpEnd            int
 	needSpaceBeforeDot   int
 	prevRegExpEnd        int
+	prevIdentEscapeEnd   int
 	noLeadingNewlineHere int
 	oldLineStart         int
 	oldLineEnd           int
@@ -444,6 +445,12 @@ func (p *printer) canPrintIdentifierUTF16(name []uint16) bool {
 func (p *printer) printIdentifier(name string) {
 	if p.options.ASCIIOnly {
 		p.js = QuoteIdentifier(p.js, name, p.options.UnsupportedFeatures)
+
+		// An identifier that ends in "\u{10000}" ends in "}", which doesn't look
+		// like part of an identifier to "printSpaceBeforeIdentifier"
+		if n := len(p.js); n > 0 && p.js[n-1] == '}' {
+			p.prevIdentEscapeEnd = n
+		}
 	} else {
 		p.print(name)
 	}
@@ -478,6 +485,10 @@ func (p *printer) printIdentifierUTF16(name []uint16) {
 
 		width := utf8.EncodeRune(temp[:], c)
 		p.js = append(p.js, temp[:width]...)
+	}
+
+	if n := len(p.js); p.options.ASCIIOnly && n > 0 && p.js[n-1] == '}' {
+		p.prevIdentEscapeEnd = n
 	}
 }
 
@@ -850,7 +861,7 @@ func (p *printer) printSemicolonIfNeeded() {
 }
 
 func (p *printer) printSpaceBeforeIdentifier() {
-	if c, _ := utf8.DecodeLastRune(p.js); js_ast.IsIdentifierContinue(c) || p.prevRegExpEnd == len(p.js) {
+	if c, _ := utf8.DecodeLastRune(p.js); js_ast.IsIdentifierContinue(c) || p.prevRegExpEnd == len(p.js) || p.prevIdentEscapeEnd == len(p.js) {
 		p.print(" ")
 	}
 }
@@ -5020,6 +5031,7 @@ func Print(tree js_ast.AST, symbols ast.SymbolMap, r renamer.Renamer, options Op
 		prevOpEnd:            -1,
 		needSpaceBeforeDot:   -1,
 		prevRegExpEnd:        -1,
+		prevIdentEscapeEnd:   -1,
 		noLeadingNewlineHere: -1,
 		builder:              sourcemap.MakeChunkBuilder(options.InputSourceMap, options.LineOffsetTables, options.ASCIIOnly),
 	}
